@@ -176,3 +176,5 @@ func guarded(f func()) (outcome string) {
 		return "hang"
 	}
 }
+
+func compileRx(p string) (*regexp.Regexp, error) { return regexp.Compile(p) }
